@@ -1,7 +1,7 @@
 (* Sem/CallsWitness.v — property C08: each call recorded once, FORMAT / GO TO statements, the full
    statement and its refutations (concrete witnesses closed by vm_compute), non-vacuity examples. *)
 From Coq Require Import ZArith Lia.
-From Ford Require Import Base.Str Base.StrFacts Gen.Intrinsics Sem.Calls Sem.CallsSpec Sem.CallsStrip Sem.CallsScan
+From Ford Require Import Base.Str Base.StrFacts Gen.Intrinsics Sem.Calls Sem.CallsSpec Sem.CallsDefs Sem.CallsStrip Sem.CallsScan
   Sem.CallsStmt Sem.CallsProofs Sem.CallsExact.
 
 (* ------------------------------------------------------------------ recorded once *)
@@ -153,39 +153,39 @@ Definition w_goto : list stmt := [SGoto [s "10"; s "20"] (ref1 "f" (name "i"))].
 Theorem refuted_same_last : refutes w_same_last_tb w_same_last /\ region_same_last w_same_last_tb w_same_last = true /\
   recorded w_same_last_tb (map render_stmt w_same_last) = Some [s "m.t1.run"] /\
   calls_of w_same_last_tb w_same_last = [s "m.t1.run"; s "m.t2.run"].
-Proof. unfold refutes. repeat split; vm_compute; reflexivity. Qed.
+Proof. unfold refutes. repeat match goal with |- _ /\ _ => split end; vm_compute; reflexivity. Qed.
 
 Theorem refuted_intrinsic_named : refutes w_intrinsic_tb w_intrinsic /\ region_intrinsic_named w_intrinsic_tb w_intrinsic = true /\
   map render_stmt w_intrinsic = [s "call wait(3)"] /\
   recorded w_intrinsic_tb (map render_stmt w_intrinsic) = Some [] /\ calls_of w_intrinsic_tb w_intrinsic = [s "m.wait"].
-Proof. unfold refutes. repeat split; vm_compute; reflexivity. Qed.
+Proof. unfold refutes. repeat match goal with |- _ /\ _ => split end; vm_compute; reflexivity. Qed.
 
 Theorem refuted_labelled_call : refutes w_labelled_tb w_labelled /\ region_labelled_call w_labelled = true /\
   map render_stmt w_labelled = [s "10 call sub0"] /\
   recorded w_labelled_tb (map render_stmt w_labelled) = Some [] /\ calls_of w_labelled_tb w_labelled = [s "m.sub0"].
-Proof. unfold refutes. repeat split; vm_compute; reflexivity. Qed.
+Proof. unfold refutes. repeat match goal with |- _ /\ _ => split end; vm_compute; reflexivity. Qed.
 
 Theorem refuted_format_nospace : refutes (tb0 []) w_format /\ region_format_nospace w_format = true /\
   map render_stmt w_format = [s "100 format(i5, 3(f8.2, a))"] /\
   recorded (tb0 []) (map render_stmt w_format) = Some [s "3"] /\ calls_of (tb0 []) w_format = [].
-Proof. unfold refutes. repeat split; vm_compute; reflexivity. Qed.
+Proof. unfold refutes. repeat match goal with |- _ /\ _ => split end; vm_compute; reflexivity. Qed.
 
 Theorem refuted_assoc_expr : refutes w_assoc_expr_tb w_assoc_expr /\ region_assoc_expr w_assoc_expr = true /\
   map render_stmt w_assoc_expr = [s "associate (tmp => arr(1:3) + 1)"; s "i = tmp(2)"; s "end associate"] /\
   recorded w_assoc_expr_tb (map render_stmt w_assoc_expr) = Some [s "arr+1"] /\ calls_of w_assoc_expr_tb w_assoc_expr = [].
-Proof. unfold refutes. repeat split; vm_compute; reflexivity. Qed.
+Proof. unfold refutes. repeat match goal with |- _ /\ _ => split end; vm_compute; reflexivity. Qed.
 
 Theorem refuted_assoc_crash : refutes w_crash_tb w_crash /\ region_crash w_crash_tb w_crash = true /\
   map render_stmt w_crash = [s "associate (a => mk(1))"; s "call a%run()"; s "end associate"] /\
   recorded w_crash_tb (map render_stmt w_crash) = None /\ calls_of w_crash_tb w_crash = [s "m.mk"; s "m.t.run"].
-Proof. unfold refutes. repeat split; vm_compute; try reflexivity; exact I. Qed.
+Proof. unfold refutes. repeat match goal with |- _ /\ _ => split end; vm_compute; try reflexivity; exact I. Qed.
 
 Theorem refuted_goto : refutes w_goto_tb w_goto /\ region_goto_expr w_goto = true /\
   map render_stmt w_goto = [s "go to (10, 20), f(i)"] /\
   recorded w_goto_tb (map render_stmt w_goto) = Some [] /\ calls_of w_goto_tb w_goto = [s "m.f"] /\
   (* and a CALL whose target merely ends in "goto" is dropped as well *)
   recorded (tb0 [(s "mygoto", EProc (s "m.mygoto"))]) [s "call mygoto(1, 2)"] = Some [].
-Proof. unfold refutes. repeat split; vm_compute; reflexivity. Qed.
+Proof. unfold refutes. repeat match goal with |- _ /\ _ => split end; vm_compute; reflexivity. Qed.
 
 (* region 1: FORD's tables lack a declaration the program has (an array declared by a DIMENSION or
    COMMON statement, inside a BLOCK, or in a module outside the project): the array is recorded *)
@@ -196,7 +196,7 @@ Theorem refuted_unresolved_array :
   forallb wf_stmt ss = true /\ map render_stmt ss = [s "w(1) = z(2)"] /\
   region_unresolved tb_ford tb_true ss = true /\
   recorded tb_ford (map render_stmt ss) = Some [s "w"; s "z"] /\ calls_of tb_true ss = [].
-Proof. cbv zeta. repeat split; vm_compute; reflexivity. Qed.
+Proof. cbv zeta. repeat match goal with |- _ /\ _ => split end; vm_compute; reflexivity. Qed.
 
 (* ------------------------------------------------------------------ non-vacuity *)
 Definition ex_tb : symtab :=
@@ -226,14 +226,14 @@ Example exact_example :
      s "end do"] /\
   recorded ex_tb (map render_stmt ex_unit) = Some [s "m.t"; s "m.f"; s "m.g"; s "ext_fn"; s "m.ty.get"; s "m.ty.run"] /\
   calls_of ex_tb ex_unit = [s "m.f"; s "m.t"; s "m.g"; s "ext_fn"; s "m.ty.get"; s "m.ty.run"; s "m.f"; s "m.f"].
-Proof. repeat split; vm_compute; reflexivity. Qed.
+Proof. repeat match goal with |- _ /\ _ => split end; vm_compute; reflexivity. Qed.
 
 Example raw_example :
   let st := SIfCall None true (EBin (ref1 "f" (ref1 "arr" (name "i"))) (s " > ") (num "0"))
                     (DPartA (s "obj") (name "i") (DLastA (s "run") (ref1 "g" (num "2")))) in
   wf_stmt st = true /\ plain_ok st = true /\ render_stmt st = s "if (f(arr(i)) > 0) call obj(i)%run(g(2))" /\
   map norm_chain (chain_texts (render_stmt st)) = [[s "obj"; s "run"]; [s "f"]; [s "g"]; [s "arr"]].
-Proof. cbv zeta. repeat split; vm_compute; reflexivity. Qed.
+Proof. cbv zeta. repeat match goal with |- _ /\ _ => split end; vm_compute; reflexivity. Qed.
 
 Example strip_example :
   let gs := [GKw (s "if") true (EBin (ref1 "f" (ref1 "arr" (name "i"))) (s " > ") (num "0"));
@@ -242,4 +242,4 @@ Example strip_example :
   strip_paren (render_segs gs) 0 = [s "if () x = 2*()"] /\
   strip_paren (render_segs gs) 1 = [s "(f() > 0)"; s "(g())"] /\
   strip_paren (render_segs gs) 2 = [s "(arr())"; s "(y)"] /\ strip_paren (render_segs gs) 3 = [s "(i)"].
-Proof. cbv zeta. repeat split; vm_compute; reflexivity. Qed.
+Proof. cbv zeta. repeat match goal with |- _ /\ _ => split end; vm_compute; reflexivity. Qed.
